@@ -200,14 +200,27 @@ def C09_imp_cells_to_data_block(case, params):
 
 def C09_classifier_emptied_by_data_write(case, params):
     """a cell parameter 'imp:x,y=v' (one tree for several particles), a write_to_file while IMP is printed in the
-    data block, then IMP printed in the cell block: the cell's classifier has lost its particles ('imp:=2 imp:=2')"""
+    data block, then IMP printed in the cell block: the cell's classifier has lost its particles ('imp:=2 imp:=2');
+    or, after that write, cell.importance.<particle> = v raises KeyError (_unshare_tree removes the particle from
+    the emptied classifier)"""
     import props.C09 as C09
     c = _core(case)
-    if c is None or case.get("kind") != "imp-key-unreadable":
+    if c is None or case.get("kind") not in ("imp-key-unreadable", "statement-raises"):
         return False
+    if case.get("kind") == "statement-raises":
+        d = case.get("detail") or []
+        if len(d) < 2 or d[1] != "KeyError" or d[0][0] not in ("I", "S"):
+            return False
     cell, _ = _blocks(c["text"])
     if not any(_re.search(r"imp:[a-z]+,[a-z,]+\s*=?", l, _re.I) for l in cell):
         return False
-    if not any(o[0] == "Wr" for o in c["ops"]):
+    # an intermediate write_to_file while IMP is printed in the data block: a flip of imp to True before a write
+    flag, seen = False, False
+    for o in c["ops"]:
+        if o[0] == "F" and o[1] == "imp":
+            flag = bool(o[2])
+        if o[0] == "Wr" and flag:
+            seen = True
+    if not seen:
         return False
-    return _passes({"text": c["text"], "ops": [o for o in c["ops"] if o[0] != "Wr"]})
+    return _passes({"text": c["text"], "ops": [o for o in c["ops"] if o[0] != "Wr"], "warnings": c.get("warnings")})
